@@ -325,3 +325,134 @@ Example c18_source_return_nonvacuous :
     Some (Ok (mkT [2; 3]%nat [55; 18; 5; 68; 22; 6])) /\
   SrcRun.src_return (mkT [2; 3; 1]%nat [1; 3; 5; 2; 4; 6]) 3 true = Some (Err ERuntime).
 Proof. split; [vm_compute; reflexivity|]. split; vm_compute; reflexivity. Qed.
+
+(* ---- the tie to the source text, second part (MeanVarianceNormalization.accumulate / store) --------------------
+   PV.Gen.C18BSrc.acc_body / store_body are regenerated from /repo/src/pydrobert/torch/_feats.py on every run;
+   SrcRunB.ext_t gives the torch calls the exact-rational meaning of PV.MiniTorch.OpsC18B; sqrt is an oracle [sq]
+   (any function).  `self` is a dictionary of attributes and buffers in the variable store (SrcRunB.self_val).
+   Theorems named `_partial` rest on the hand-written glue of SrcRunB.src_accumulate: the in-place `+=` on the local
+   names that alias the buffers is not rendered by MiniPy's value semantics, the new statistics are read from those
+   locals.  Hypothesis [stats_wf] (sum and sumsq of one length) is what accumulate produces (c18_source_accumulate_wf). *)
+From Coq Require Import String.
+From PV Require MiniTorch.OpsC18B Gen.C18BSrc C18.SrcRunB C18.TieB C18.TieBStore C18.TieBHist.
+
+(* accumulate on a module that already holds statistics: the interpreted body ends normally and its locals
+   count, sum_, sumsq (= the buffer objects, updated in place) hold exactly Model.accumulate's statistics *)
+Theorem c18_source_accumulate_run : forall sq dim eps mean std s0 x s',
+  accumulate dim (Some s0) x = Ok s' ->
+  exists fin,
+    Interp.run (SrcRunB.ext_t sq) C18BSrc.acc_body (SrcRunB.acc_vars (SrcRunB.mkM dim eps mean std (Some s0)) x)
+      = Interp.Ok Syntax.VNone fin /\
+    Interp.lookup "count"%string (Interp.vars fin) = Some (SrcRun.enc_tensor (mkT [1%nat] [cnt s'])) /\
+    Interp.lookup "sum_"%string (Interp.vars fin) = Some (SrcRun.enc_tensor (SrcRunB.vec (ssum s'))) /\
+    Interp.lookup "sumsq"%string (Interp.vars fin) = Some (SrcRun.enc_tensor (SrcRunB.vec (ssq s'))).
+Proof. exact TieB.acc_some. Qed.
+Print Assumptions c18_source_accumulate_run.
+
+(* the first accumulate (count is None): the buffers are created with torch.zeros and then updated *)
+Theorem c18_source_accumulate_first_run : forall sq dim eps mean std x s',
+  accumulate dim None x = Ok s' ->
+  exists fin,
+    Interp.run (SrcRunB.ext_t sq) C18BSrc.acc_body (SrcRunB.acc_vars (SrcRunB.mkM dim eps mean std None) x)
+      = Interp.Ok Syntax.VNone fin /\
+    Interp.lookup "count"%string (Interp.vars fin) = Some (SrcRun.enc_tensor (mkT [1%nat] [cnt s'])) /\
+    Interp.lookup "sum_"%string (Interp.vars fin) = Some (SrcRun.enc_tensor (SrcRunB.vec (ssum s'))) /\
+    Interp.lookup "sumsq"%string (Interp.vars fin) = Some (SrcRun.enc_tensor (SrcRunB.vec (ssq s'))).
+Proof. exact TieB.acc_none. Qed.
+Print Assumptions c18_source_accumulate_first_run.
+
+Theorem c18_source_accumulate_is_model_partial : forall sq m x s',
+  accumulate (SrcRunB.m_dim m) (SrcRunB.m_stats m) x = Ok s' -> SrcRunB.src_accumulate sq m x = Some (Ok s').
+Proof. exact TieB.src_accumulate_ok_partial. Qed.
+Print Assumptions c18_source_accumulate_is_model_partial.
+
+Theorem c18_source_accumulate_wf : forall dim st x s',
+  TieBHist.ostats_wf st -> accumulate dim st x = Ok s' -> TieBStore.stats_wf s'.
+Proof. exact TieBHist.accumulate_wf. Qed.
+Print Assumptions c18_source_accumulate_wf.
+
+(* store, whole function, no glue: whenever Model.store returns (mean, variance) the interpreted body leaves the
+   module with self.mean = mean, self.std = map sq variance, and the accumulators deleted or kept as asked *)
+Theorem c18_source_store_is_model : forall sq dim eps mean0 std0 s (del bessel : bool) mean var,
+  TieBStore.stats_wf s -> store (Some s) bessel = Ok (mean, var) ->
+  exists fin,
+    Interp.run (SrcRunB.ext_t sq) C18BSrc.store_body
+      (SrcRunB.store_vars (SrcRunB.mkM dim eps mean0 std0 (Some s)) del bessel) = Interp.Ok Syntax.VNone fin /\
+    Interp.lookup "self"%string (Interp.vars fin) =
+      Some (SrcRunB.self_val (SrcRunB.mkM dim eps (Some mean) (Some (map sq var)) (if del then None else Some s))).
+Proof. exact TieBStore.store_ok. Qed.
+Print Assumptions c18_source_store_is_model.
+
+(* no statistics: RuntimeError before anything else; fewer than two frames: RuntimeError, the module as it was *)
+Theorem c18_source_store_raises_none : forall sq dim eps mean0 std0 (del bessel : bool),
+  Interp.run (SrcRunB.ext_t sq) C18BSrc.store_body (SrcRunB.store_vars (SrcRunB.mkM dim eps mean0 std0 None) del bessel)
+  = Interp.Exc "RuntimeError"%string (Interp.mkState (SrcRunB.store_vars (SrcRunB.mkM dim eps mean0 std0 None) del bessel) []).
+Proof. exact TieBStore.store_none. Qed.
+Print Assumptions c18_source_store_raises_none.
+
+Theorem c18_source_store_raises_few : forall sq dim eps mean0 std0 s (del bessel : bool),
+  Qle_bool 2 (cnt s) = false ->
+  exists fin,
+    Interp.run (SrcRunB.ext_t sq) C18BSrc.store_body
+      (SrcRunB.store_vars (SrcRunB.mkM dim eps mean0 std0 (Some s)) del bessel) = Interp.Exc "RuntimeError"%string fin /\
+    Interp.lookup "self"%string (Interp.vars fin) = Some (SrcRunB.self_val (SrcRunB.mkM dim eps mean0 std0 (Some s))).
+Proof. exact TieBStore.store_few. Qed.
+Print Assumptions c18_source_store_raises_few.
+
+(* all three at once, in the executable form the harness evaluates: the interpreted store IS Model.store *)
+Theorem c18_source_store_refines_model : forall sq m del bessel,
+  TieBHist.ostats_wf (SrcRunB.m_stats m) ->
+  SrcRunB.src_store sq m del bessel = Some (TieBHist.store_model sq m del bessel).
+Proof. exact TieBHist.src_store_is_model. Qed.
+Print Assumptions c18_source_store_refines_model.
+
+(* histories of the module run through the interpreted source (accumulate / store in any sequence; sqrt oracle =
+   identity so that self.std shows the variance): whenever no accumulate of the history raises, the store results
+   and the final accumulators are exactly those of Model.run_ops - so c18_histories and the statistics theorems
+   apply to the source *)
+Theorem c18_source_histories_partial : forall ops m outs stores final,
+  TieBHist.ostats_wf (SrcRunB.m_stats m) ->
+  run_ops (SrcRunB.m_dim m) (SrcRunB.m_stats m) ops outs = (stores, Ok final) ->
+  SrcRunB.src_run_ops (fun v => v) m ops outs = Some (stores, Ok final).
+Proof. exact TieBHist.src_run_ops_is_model_partial. Qed.
+Print Assumptions c18_source_histories_partial.
+
+Theorem c18_source_ops_check_is_check_partial : forall dim ops tol tola impl_stores impl_final stores final,
+  run_ops dim None ops [] = (stores, Ok final) ->
+  SrcRunB.src_ops_check dim ops tol tola impl_stores impl_final = check_ops dim ops tol tola impl_stores impl_final.
+Proof. exact TieBHist.src_ops_check_is_check_partial. Qed.
+Print Assumptions c18_source_ops_check_is_check_partial.
+
+(* composed with c18_store_is_pooled_mean_var - a statement purely about the interpreted source: accumulate ANY
+   non-empty list of tensors (any shapes and numbers of dimensions that agree on the X coefficients along dim, at
+   least two frames) with the interpreted accumulate, then run the interpreted store: self.mean is the pooled
+   population mean of every coefficient, self.std the oracle's root of its pooled (biased or Bessel) variance *)
+Theorem c18_source_acc_store_pooled_partial : forall sq dim X xs (del b : bool),
+  xs <> [] -> uniform dim X xs -> (2 <= frames dim xs)%nat ->
+  exists s mean var,
+    SrcRunB.src_run_ops (fun v => v) (SrcRunB.fresh_module dim) (map OpAcc xs) [] = Some ([], Ok (Some s)) /\
+    SrcRunB.src_store sq (SrcRunB.mkM dim 0 None None (Some s)) del b
+      = Some (Ok (mean, map sq var),
+              SrcRunB.mkM dim 0 (Some mean) (Some (map sq var)) (if del then None else Some s)) /\
+    List.length mean = X /\ List.length var = X /\
+    forall i, (i < X)%nat ->
+      nth i mean 0 == pop_mean (pooled dim xs i) /\ nth i var 0 == pop_var b (pooled dim xs i).
+Proof. exact TieBHist.source_acc_store_pooled_partial. Qed.
+Print Assumptions c18_source_acc_store_pooled_partial.
+
+(* non-vacuity: the interpreted source on the history of c18_stats_nonvacuous, on a forward call and on the delta
+   example of c18_deltas_nonvacuous (forward / mean_var_norm / feat_deltas are translated and run - SrcRunB - but
+   not yet tied by a theorem) *)
+Example c18_source_mvn_nonvacuous :
+  let xs := [mkT [2; 2]%nat [1; 2; 3; 6]; mkT [1; 2]%nat [5; 1]] in
+  (exists mean var,
+     SrcRunB.src_run_ops (fun v => v) (SrcRunB.fresh_module (-1)) (map OpAcc xs ++ [OpStore true true]) []
+       = Some ([Ok (mean, var)], Ok None) /\ Forall2 Qeq mean [3; 3] /\ Forall2 Qeq var [4; 7]) /\
+  SrcRunB.src_forward (fun v => v) (SrcRunB.mkM (-1) (1 # 100) (Some [1; 2]) (Some [2; 4]) None) (mkT [2; 2]%nat [1; 2; 3; 6])
+    = Some (Ok (mkT [2; 2]%nat [0 # 2; 0 # 4; 2 # 2; 4 # 4])) /\
+  SrcRunB.src_deltas (mkT [3; 2]%nat [1; 2; 3; 4; 5; 7]) (-1) (-2) true 2 1 Reflect 0 =
+    Some (Ok (mkT [3; 6]%nat [1; 2; 0; 0; 2; 5 # 2;   3; 4; 2; 5 # 2; 0; 0;   5; 7; 0; 0; -2; -5 # 2])).
+Proof.
+  cbv zeta. split; [|split; vm_compute; reflexivity].
+  eexists. eexists. split; [vm_compute; reflexivity|]. split; repeat constructor; reflexivity.
+Qed.
